@@ -645,7 +645,37 @@ pub fn run_c15(tier: &str, seed: u64, model: &Model, corpus_lines: Vec<String>, 
     if tier == "replay" {
         return rep;
     }
-    let n = if tier == "thorough" { 2500 } else { 260 };
+    // every documented range at lo-1, lo, hi, hi+1 (the behavioural copy of the clap ranges)
+    let mut bcases: Vec<CliCase> = Vec::new();
+    let rec = |k: usize| vec![gen::clean_seq(&mut Rng::new(seed ^ k as u64), 2 * k + 5, gen::Flavor::Uniform)];
+    for k in [2u64, 3, 7, 8] {
+        bcases.push(CliCase { sub: Sub::Oligo { k, counts: false, header: false, preset: "spc".into(), threads: 1, stdin: false }, recs: rec(k as usize), container: "fa".into() });
+        bcases.push(CliCase { sub: Sub::Cgr { k: Some(k), counts: false, v: None, threads: 1 }, recs: rec(k as usize), container: "fa".into() });
+    }
+    for k in [6u64, 7, 31, 32] {
+        bcases.push(CliCase { sub: Sub::Cov { k, bs: 5, bc: 5, mem: 6, counts: false, preset: "spc".into(), threads: 1, alt: None }, recs: rec(k as usize), container: "fa".into() });
+    }
+    for v in [4u64, 5] {
+        bcases.push(CliCase { sub: Sub::Cov { k: 7, bs: v, bc: 5, mem: 6, counts: false, preset: "spc".into(), threads: 1, alt: None }, recs: rec(7), container: "fa".into() });
+        bcases.push(CliCase { sub: Sub::Cov { k: 7, bs: 5, bc: v, mem: 6, counts: false, preset: "spc".into(), threads: 1, alt: None }, recs: rec(7), container: "fa".into() });
+    }
+    for mem in [5u64, 6, 128, 129] {
+        bcases.push(CliCase { sub: Sub::Cov { k: 7, bs: 5, bc: 5, mem, counts: false, preset: "spc".into(), threads: 1, alt: None }, recs: rec(7), container: "fa".into() });
+        bcases.push(CliCase { sub: Sub::Ctr { k: 10, mem, acgt: false, threads: 1 }, recs: rec(10), container: "fa".into() });
+    }
+    for m in [6u64, 7, 28, 29] {
+        bcases.push(CliCase { sub: Sub::Min { m, w: 0, preset: "s2m".into(), threads: 1 }, recs: rec(m as usize), container: "fa".into() });
+        bcases.push(CliCase { sub: Sub::Min { m, w: m + 1, preset: "m2s".into(), threads: 1 }, recs: rec(m as usize), container: "fa".into() });
+    }
+    for (m, w) in [(7u64, 6u64), (7, 7), (7, 8), (28, 28), (28, 29), (10, 1)] {
+        bcases.push(CliCase { sub: Sub::Min { m, w, preset: "s2m".into(), threads: 1 }, recs: rec(30), container: "fa".into() });
+    }
+    for k in [9u64, 10, 31, 32] {
+        bcases.push(CliCase { sub: Sub::Ctr { k, mem: 6, acgt: false, threads: 1 }, recs: rec(k as usize), container: "fa".into() });
+    }
+    rep.exhaustive_spaces.push("every documented option range at lo-1, lo, hi, hi+1 and the window/minimiser boundary w = m-1, m, m+1".into());
+    run_section_cli(&mut rep, "boundaries", bcases, model, bin, work, seed);
+    let n = if tier == "thorough" { 2500 } else { 230 };
     let cases: Vec<CliCase> = (0..n).map(|_| gen_cli(&mut rng, false)).collect();
     run_section_cli(&mut rep, "options", cases, model, bin, work, seed);
     // relations between real runs
